@@ -235,8 +235,12 @@ Definition is_bs_name (n : list N) : bool :=
    The next character must be Latin-1 (the tokenizer looks at it through the checking `peek`). *)
 Definition ident_follow (n : list N) (rest : list char) : bool :=
   negb (hd_sat rest is_idc) && negb (is_bs_name n && hd_is rest 34).
-Definition num_follow (rest : list char) : bool :=
-  negb (hd_sat rest is_idc) && negb (hd_is rest 46) && negb (hd_is rest 35).
+(* behind a number: no identifier character (digit, letter, underscore), no `.`, no `#`; and no sign when the
+   number ends with `e`/`E` (the tokenizer accepts an empty exponent: `1e` followed by `-` would read the sign) *)
+Definition ends_e (txt : list N) : bool := match rev txt with c :: _ => is_e c | [] => false end.
+Definition num_follow (txt : list N) (rest : list char) : bool :=
+  negb (hd_sat rest is_idc) && negb (hd_is rest 46) && negb (hd_is rest 35)
+  && negb (ends_e txt && (hd_is rest 45 || hd_is rest 43)).
 Definition follow_delim (last : option kind) (k : kind) (rest : list char) : bool :=
   let c1 := hd_is rest in
   match k with
@@ -261,9 +265,9 @@ Definition follow_kv (last : option kind) (k : kind) (v : value) (rest : list ch
   | VIdent n => if hd_is n 92 then negb (hd_is rest 92) else ident_follow n rest
   | VString _ => negb (hd_is rest 34)
   | VChar _ => can_be_char last
-  | VAbsInt _ _ => num_follow rest
-  | VAbsReal _ => num_follow rest
-  | VBitString _ _ _ _ => negb (hd_is rest 34)
+  | VAbsInt txt _ => num_follow txt rest
+  | VAbsReal txt => num_follow txt rest
+  | VBitString txt _ _ _ => negb (hd_is rest 34) && (if hd_sat txt is_digit then num_follow txt rest else true)
   | VText _ => true
   end.
 Definition follow_ok (last : option kind) (t : token) (rest : list char) : bool :=
